@@ -699,18 +699,15 @@ func (in *Interp) builtin(name string, x *ast.CallExpr) Value {
 		default:
 			in.fail(x, "append to %T", base)
 		}
-		bk := &Backing{}
-		for i := 0; i < s.Len(); i++ {
-			bk.E = append(bk.E, &Cell{s.At(i).V})
-		}
 		et := info.TypeOf(x.Args[0]).Underlying().(*types.Slice).Elem()
+		var added []Value
 		for i, a := range x.Args[1:] {
 			v := in.expr(a)
 			if x.Ellipsis.IsValid() && i == len(x.Args)-2 {
 				switch src := v.(type) {
 				case *Slice:
 					for j := 0; j < src.Len(); j++ {
-						bk.E = append(bk.E, &Cell{Copy(src.At(j).V)})
+						added = append(added, Copy(src.At(j).V))
 					}
 				case NilVal:
 				case *StrVal:
@@ -718,16 +715,30 @@ func (in *Interp) builtin(name string, x *ast.CallExpr) Value {
 						in.fail(x, "append of an unknown string")
 					}
 					for j := 0; j < len(src.S); j++ {
-						bk.E = append(bk.E, &Cell{in.D.Const(int64(src.S[j]), 8, false)})
+						added = append(added, in.D.Const(int64(src.S[j]), 8, false))
 					}
 				default:
 					in.fail(x, "append of %T...", v)
 				}
 			} else {
-				bk.E = append(bk.E, &Cell{Copy(in.toType(v, info.TypeOf(a), et))})
+				added = append(added, Copy(in.toType(v, info.TypeOf(a), et)))
 			}
 		}
-		// NOTE: append is modelled as always allocating; aliasing through spare capacity is engine E4's subject.
+		// within the existing capacity Go guarantees that append writes in place and shares the backing array
+		if !s.Nil && s.Back != nil && s.Cap >= s.Len()+len(added) && s.Lo+s.Len()+len(added) <= len(s.Back.E) {
+			for i, v := range added {
+				in.store(s.Back.E[s.Hi+i], v)
+			}
+			return &Slice{Back: s.Back, Lo: s.Lo, Hi: s.Hi + len(added), Cap: s.Cap, Elem: s.Elem}
+		}
+		// otherwise a new array is allocated; its capacity is an implementation detail (modelled as exactly len)
+		bk := &Backing{}
+		for i := 0; i < s.Len(); i++ {
+			bk.E = append(bk.E, &Cell{s.At(i).V})
+		}
+		for _, v := range added {
+			bk.E = append(bk.E, &Cell{v})
+		}
 		return &Slice{Back: bk, Lo: 0, Hi: len(bk.E), Cap: len(bk.E), Elem: s.Elem}
 	case "copy":
 		dst, ok1 := in.expr(x.Args[0]).(*Slice)
